@@ -27,13 +27,14 @@
       - `Option.Some(e)` (`enum_constructor` + `make_enum`), `Option.None`,
         `accept e` / `reject e` (the operand stays lazy until `make_enum` stores
         it), `e?` (`question_mark`); record literals (`record`) and field access (`access`);
+      - script-function calls (`Value::Call`; the callee's structured MIR runs from a store
+        holding its parameters);
       - enum constructors `E.V(args…)` (`enum_constructor` + `make_enum`);
       - `match` (`r#match` / `match_case`): guard chains per discriminant with the `_` arms
         woven in, in source order; shared arm blocks.
   * the temporary counter `tmp_idx` (both `tmp()` and `undropped_tmp()` bump it).
 
-  Not modelled in this version (`lowerE` returns `none`): script-function
-  calls, `for`, lists, f-strings; a `match` with a pattern naming a
+  Not modelled in this version (`lowerE` returns `none`): `for`, lists, f-strings; a `match` with a pattern naming a
   variant the examinee's type does not have; the `stack_slots` bookkeeping and the `drop` instructions (they
   have no effect on the order of host calls).
 
@@ -64,6 +65,7 @@ inductive Value
   | not (x : Var)
   | neg (x : Var)
   | callRt (f : Nat) (args : List Var)
+  | call (f : Nat) (args : List Var) -- `Value::Call`: a script function (run by `EvalV`, not by `evalValue`)
   | disc (x : Var)                   -- `Value::Discriminant`
   | cloneProj (x : Var) (i : Nat) (tag : Nat)   -- `Clone` of `x.Variant#i` (`tag` names the variant when printed)
   | cloneField (x : Var) (i : Nat)   -- `Clone` of `x.field_i` of a record
@@ -137,6 +139,7 @@ def evalValue (σ : Store) : Value → Option (Trace × Val)
   | .callRt f args =>
     let vs := args.map σ
     (hostSem f vs).map (fun v => ([⟨f, vs⟩], v))
+  | .call _ _ => none   -- needs the program: see `EvalV`
   | .disc x => (discOf (σ x)).map (fun d => ([], .int d))
   | .cloneProj x i _ => (payload (σ x) i).map (fun v => ([], .int v))
   | .cloneField x i => (payload (σ x) i).map (fun v => ([], .int v))
@@ -144,6 +147,15 @@ def evalValue (σ : Store) : Value → Option (Trace × Val)
 inductive Outcome
   | normal (σ : Store)
   | returned (v : Val)
+
+/-- A lowered program: parameters and structured MIR of every function. -/
+abbrev Prog := List (List Nat × Code)
+
+/-- the callee's store at entry: its parameters -/
+def storeOfEnv (cenv : Env) : Store := fun y =>
+  match y with
+  | .x p => (lookup cenv p).getD .unit
+  | .t _ => .unit
 
 /-- how a guard chain ends: an arm is selected, or a guard left the function -/
 inductive GOut
@@ -156,50 +168,57 @@ def findChain : List GChain → List GStep → Nat → List GStep
   | .mk d steps :: rest, dflt, k => if d = k then steps else findChain rest dflt k
 
 mutual
+/-- Evaluation of an assignment's operand: a pure operand or host call (`evalValue`), or a
+    script-function call: the callee's structured MIR runs from a store holding its parameters. -/
+inductive EvalV (P : Prog) : Store → Value → Trace → Val → Prop
+  | pure {σ v t val} : evalValue σ v = some (t, val) → EvalV P σ v t val
+  | call {σ f args params code cenv t v} : P[f]? = some (params, code) →
+      bindParams params (args.map σ) [] = some cenv → ExecC P (storeOfEnv cenv) code t (.returned v) →
+      EvalV P σ (.call f args) t v
 /-- Big-step execution of one structured statement. -/
-inductive ExecS : Store → Stm → Trace → Outcome → Prop
-  | assign {σ x v t val} : evalValue σ v = some (t, val) → ExecS σ (.assign x v) t (.normal (σ.set x val))
-  | ret {σ x} : ExecS σ (.ret x) [] (.returned (σ x))
-  | iteThen {σ x k thn els t o} : σ x = .bool k → ExecC σ thn t o → ExecS σ (.ite x k thn els) t o
-  | iteElse {σ x k thn els t o} : σ x = .bool (!k) → ExecC σ els t o → ExecS σ (.ite x k thn els) t o
+inductive ExecS (P : Prog) : Store → Stm → Trace → Outcome → Prop
+  | assign {σ x v t val} : EvalV P σ v t val → ExecS P σ (.assign x v) t (.normal (σ.set x val))
+  | ret {σ x} : ExecS P σ (.ret x) [] (.returned (σ x))
+  | iteThen {σ x k thn els t o} : σ x = .bool k → ExecC P σ thn t o → ExecS P σ (.ite x k thn els) t o
+  | iteElse {σ x k thn els t o} : σ x = .bool (!k) → ExecC P σ els t o → ExecS P σ (.ite x k thn els) t o
   | whlDone {σ cond ex body t σ1} :
-      ExecC σ cond t (.normal σ1) → σ1 ex = .bool false → ExecS σ (.whl cond ex body) t (.normal σ1)
+      ExecC P σ cond t (.normal σ1) → σ1 ex = .bool false → ExecS P σ (.whl cond ex body) t (.normal σ1)
   | whlCondRet {σ cond ex body t v} :
-      ExecC σ cond t (.returned v) → ExecS σ (.whl cond ex body) t (.returned v)
+      ExecC P σ cond t (.returned v) → ExecS P σ (.whl cond ex body) t (.returned v)
   | whlBodyRet {σ cond ex body t1 σ1 t2 v} :
-      ExecC σ cond t1 (.normal σ1) → σ1 ex = .bool true → ExecC σ1 body t2 (.returned v) →
-      ExecS σ (.whl cond ex body) (t1 ++ t2) (.returned v)
+      ExecC P σ cond t1 (.normal σ1) → σ1 ex = .bool true → ExecC P σ1 body t2 (.returned v) →
+      ExecS P σ (.whl cond ex body) (t1 ++ t2) (.returned v)
   | whlStep {σ cond ex body t1 σ1 t2 σ2 t3 o} :
-      ExecC σ cond t1 (.normal σ1) → σ1 ex = .bool true → ExecC σ1 body t2 (.normal σ2) →
-      ExecS σ2 (.whl cond ex body) t3 o → ExecS σ (.whl cond ex body) (t1 ++ t2 ++ t3) o
-  | setDisc {σ x blank} : ExecS σ (.setDisc x blank) [] (.normal (σ.set x blank))
-  | assignField {σ x i v t n val} : evalValue σ v = some (t, .int n) → setPayload (σ x) i n = some val →
-      ExecS σ (.assignField x i v) t (.normal (σ.set x val))
-  | iteDThen {σ x k thn els t o} : σ x = .int k → ExecC σ thn t o → ExecS σ (.iteD x k thn els) t o
-  | iteDElse {σ x k d thn els t o} : σ x = .int d → d ≠ k → ExecC σ els t o → ExecS σ (.iteD x k thn els) t o
+      ExecC P σ cond t1 (.normal σ1) → σ1 ex = .bool true → ExecC P σ1 body t2 (.normal σ2) →
+      ExecS P σ2 (.whl cond ex body) t3 o → ExecS P σ (.whl cond ex body) (t1 ++ t2 ++ t3) o
+  | setDisc {σ x blank} : ExecS P σ (.setDisc x blank) [] (.normal (σ.set x blank))
+  | assignField {σ x i v t n val} : EvalV P σ v t (.int n) → setPayload (σ x) i n = some val →
+      ExecS P σ (.assignField x i v) t (.normal (σ.set x val))
+  | iteDThen {σ x k thn els t o} : σ x = .int k → ExecC P σ thn t o → ExecS P σ (.iteD x k thn els) t o
+  | iteDElse {σ x k d thn els t o} : σ x = .int d → d ≠ k → ExecC P σ els t o → ExecS P σ (.iteD x k thn els) t o
   | mtchArm {σ d k chains dflt arms t1 a σ1 code t2 o} :
-      σ d = .int (k : Nat) → ExecG σ (findChain chains dflt k) t1 (.selected a σ1) → arms[a]? = some code →
-      ExecC σ1 code t2 o → ExecS σ (.mtch d chains dflt arms) (t1 ++ t2) o
+      σ d = .int (k : Nat) → ExecG P σ (findChain chains dflt k) t1 (.selected a σ1) → arms[a]? = some code →
+      ExecC P σ1 code t2 o → ExecS P σ (.mtch d chains dflt arms) (t1 ++ t2) o
   | mtchGuardRet {σ d k chains dflt arms t v} :
-      σ d = .int (k : Nat) → ExecG σ (findChain chains dflt k) t (.returned v) →
-      ExecS σ (.mtch d chains dflt arms) t (.returned v)
+      σ d = .int (k : Nat) → ExecG P σ (findChain chains dflt k) t (.returned v) →
+      ExecS P σ (.mtch d chains dflt arms) t (.returned v)
 /-- … of a guard chain -/
-inductive ExecG : Store → List GStep → Trace → GOut → Prop
-  | plain {σ binds a rest t σ1} : ExecC σ binds t (.normal σ1) → ExecG σ (.plain binds a :: rest) t (.selected a σ1)
+inductive ExecG (P : Prog) : Store → List GStep → Trace → GOut → Prop
+  | plain {σ binds a rest t σ1} : ExecC P σ binds t (.normal σ1) → ExecG P σ (.plain binds a :: rest) t (.selected a σ1)
   | guardTrue {σ binds gcode g a rest tb σ1 tg σ2} :
-      ExecC σ binds tb (.normal σ1) → ExecC σ1 gcode tg (.normal σ2) → σ2 g = .bool true →
-      ExecG σ (.guarded binds gcode g a :: rest) (tb ++ tg) (.selected a σ2)
+      ExecC P σ binds tb (.normal σ1) → ExecC P σ1 gcode tg (.normal σ2) → σ2 g = .bool true →
+      ExecG P σ (.guarded binds gcode g a :: rest) (tb ++ tg) (.selected a σ2)
   | guardFalse {σ binds gcode g a rest tb σ1 tg σ2 t3 o} :
-      ExecC σ binds tb (.normal σ1) → ExecC σ1 gcode tg (.normal σ2) → σ2 g = .bool false →
-      ExecG σ2 rest t3 o → ExecG σ (.guarded binds gcode g a :: rest) (tb ++ tg ++ t3) o
+      ExecC P σ binds tb (.normal σ1) → ExecC P σ1 gcode tg (.normal σ2) → σ2 g = .bool false →
+      ExecG P σ2 rest t3 o → ExecG P σ (.guarded binds gcode g a :: rest) (tb ++ tg ++ t3) o
   | guardRet {σ binds gcode g a rest tb σ1 tg v} :
-      ExecC σ binds tb (.normal σ1) → ExecC σ1 gcode tg (.returned v) →
-      ExecG σ (.guarded binds gcode g a :: rest) (tb ++ tg) (.returned v)
+      ExecC P σ binds tb (.normal σ1) → ExecC P σ1 gcode tg (.returned v) →
+      ExecG P σ (.guarded binds gcode g a :: rest) (tb ++ tg) (.returned v)
 /-- … of a sequence: a `return` ends it. -/
-inductive ExecC : Store → Code → Trace → Outcome → Prop
-  | nil {σ} : ExecC σ [] [] (.normal σ)
-  | consRet {σ s rest t v} : ExecS σ s t (.returned v) → ExecC σ (s :: rest) t (.returned v)
-  | cons {σ s rest t1 σ1 t2 o} : ExecS σ s t1 (.normal σ1) → ExecC σ1 rest t2 o → ExecC σ (s :: rest) (t1 ++ t2) o
+inductive ExecC (P : Prog) : Store → Code → Trace → Outcome → Prop
+  | nil {σ} : ExecC P σ [] [] (.normal σ)
+  | consRet {σ s rest t v} : ExecS P σ s t (.returned v) → ExecC P σ (s :: rest) t (.returned v)
+  | cons {σ s rest t1 σ1 t2 o} : ExecS P σ s t1 (.normal σ1) → ExecC P σ1 rest t2 o → ExecC P σ (s :: rest) (t1 ++ t2) o
 end
 
 /-- `Lowerer::assign_to_var`: a `Move` is used as is; anything else is stored
@@ -281,6 +300,10 @@ def lowerE : Expr → Nat → Option (Code × Value × Nat)
     -- `normalized_function_call`: receiver (argument 0 of a method), then the arguments
     let (code, tmps, c) ← lowerArgs args c
     pure (code, .callRt f tmps, c)
+  | .call f args, c => do
+    -- a script function: same `normalized_function_call`, `Value::Call`
+    let (code, tmps, c) ← lowerArgs args c
+    pure (code, .call f tmps, c)
   | .bin op l r, c => do
     let (cl, vl, c) ← lowerE l c
     let ml := atvCode vl c
@@ -525,5 +548,13 @@ end
 def lowerFn (fd : FnDef) : Option Code := do
   let (cb, xb, _) ← lowerBlock fd.body 0
   pure (cb ++ [.ret xb])
+
+/-- every function of the program -/
+def lowerProg : List FnDef → Option Prog
+  | [] => some []
+  | fd :: rest => do
+    let code ← lowerFn fd
+    let more ← lowerProg rest
+    pure ((fd.params, code) :: more)
 
 end RotoV.LowerS
